@@ -33,11 +33,15 @@ Theorem C07_toolong : forall tb cs c enc data e bar,
 Proof. exact toolong_is_error. Qed.
 Print Assumptions C07_toolong.
 
-(* non-vacuity *)
-Example C07_example_toolong :
-  snd (scan (list_ascii_of_string "{}" ++ [nl] ++ repeat "x"%char 70000 ++ [nl] ++ list_ascii_of_string "{}") REof) = STooLong /\
-  fst (scan (list_ascii_of_string "{}" ++ [nl] ++ repeat "x"%char 70000 ++ [nl] ++ list_ascii_of_string "{}") REof) = [list_ascii_of_string "{}"].
-Proof. vm_compute. auto. Qed.
+(* non-vacuity, for whatever limit the regenerated Gen/Limits.v carries: a line of at least that length after a complete
+   block A makes the scanner stop with the explicit error, the tokens delivered being exactly those of A *)
+Theorem C07_toolong_happens : forall A l B e, block_ok A -> ~ In nl l -> (max_token <= len_N l)%N ->
+  snd (scan (A ++ l ++ nl :: B) e) = STooLong /\ fst (scan (A ++ l ++ nl :: B) e) = fst (scan A REof).
+Proof. exact toolong_after_block. Qed.
+Print Assumptions C07_toolong_happens.
+
+Example C07_example_block : block_ok (list_ascii_of_string "{}" ++ [nl]) /\ (0 < max_token)%N.
+Proof. split; [apply block_single; split; [intros [H|[H|[]]]; discriminate H | vm_compute; discriminate] | vm_compute; reflexivity]. Qed.
 
 (* ---------- the emitted text is one JSON object ---------- *)
 From Proofs Require Import Utf8Facts StrCodec Codec ParseWf TextLevel.
